@@ -177,6 +177,11 @@ func runC10(p *eng.Prog, r *eng.Report, tier string) {
 			nDL++
 			_, okSite := readDL[f.Short]
 			c.r.Check("C10.8", f, "call of "+sel.Sel.Name, "C: the read deadline of the connection is touched only by the negotiation watcher, SetCloseDeadline and the forwarding wrappers", cl.Pos(), okSite, f.Short+" sets or clears the connection's read deadline: a close deadline installed by SetCloseDeadline is lost")
+			if f.Short == "xmpp.(*Session).SetCloseDeadline" {
+				// the close deadline bounds the wait for the peer's closing tag
+				// (reads): our own closing tag must still be written after it passed
+				c.r.Check("C10.8", f, "close deadline is a read deadline", "K: SetCloseDeadline installs the deadline with SetReadDeadline (SetDeadline would also expire the write of the closing tag that Serve's shutdown performs after the deadline)", cl.Pos(), sel.Sel.Name == "SetReadDeadline", "the close deadline is installed with "+sel.Sel.Name+": after it has passed the closing tag cannot be written although the state says closed")
+			}
 		}
 	}
 	c.r.Floor("C10.8", "read-deadline sites", nDL, 3)
@@ -220,6 +225,7 @@ func runC10(p *eng.Prog, r *eng.Report, tier string) {
 		g := sv.Graph()
 		serveCtxReread(c, "C10.4", sv)
 		serveCtxRootedInBackground(c, "C10.13")
+		handlerWriterKeepsTheLock(c, "C10.14")
 		okDefer := false
 		for _, d := range g.Defers {
 			lit, ok := ast.Unparen(d.Call.Fun).(*ast.FuncLit)
